@@ -554,6 +554,37 @@ func genCase(t *rapid.T) Case {
 
 	branch := rapid.IntRange(0, 99).Draw(t, "branch")
 	switch {
+	case branch >= 26 && branch < 30: // LZW streams which fill the code table and keep using it
+		c.Origin = "lzw-full-table"
+		early := rapid.IntRange(0, 2).Draw(t, "early") != 0 // EarlyChange 1 is the PDF default
+		size := rapid.SampledFrom([]int{7000, 9000, 12000, 30000}).Draw(t, "psize")
+		data := payload(rapid.SampledFrom([]int{0, 0, 3, 3, 2}).Draw(t, "pkind"), size, rapid.Uint64().Draw(t, "pseed"))
+		// 0: never clear; otherwise clear only this many codes after the previous one (> 3838: the table is full by then)
+		clearAfter := rapid.SampledFrom([]int{0, 0, 3839, 3840, 4094, 4095, 4096, 5000, 9000}).Draw(t, "clearafter")
+		body = lzwFullTable(data, early, clearAfter, rapid.Bool().Draw(t, "eod"))
+		c.ExpectOut = len(data)
+		var p gen.O
+		switch {
+		case !early:
+			p = oDict(map[string]gen.O{"EarlyChange": oInt(0)})
+		case rapid.Bool().Draw(t, "explicit"):
+			p = oDict(map[string]gen.O{"EarlyChange": oInt(1)})
+		default:
+			p = oNull()
+		}
+		if rapid.IntRange(0, 3).Draw(t, "mut") == 0 {
+			c.Origin = "lzw-full-table-mutated"
+			c.ExpectOut = 0
+			body = mutateBody(body, rapid.Uint64().Draw(t, "mseed"), rapid.IntRange(1, 2).Draw(t, "nmut"), nil)
+		}
+		if rapid.IntRange(0, 4).Draw(t, "wrap") == 0 {
+			body = encodeWith(pdf.FilterASCII85{}, body)
+			setChain([]string{"ASCII85Decode", "LZWDecode"}, []gen.O{oNull(), p})
+		} else {
+			setChain([]string{"LZWDecode"}, []gen.O{p})
+			c.Direct = rapid.IntRange(-1, 0).Draw(t, "direct")
+		}
+
 	case branch < 30: // valid encoding through the library's encoders, then mutated
 		c.Origin = "encoded"
 		k := rapid.SampledFrom([]int{0, 1, 1, 1, 1, 2, 2, 2, 3, 3, 4, 6, 8}).Draw(t, "k")
@@ -707,6 +738,9 @@ func genCase(t *rapid.T) Case {
 	case branch < 77: // CCITTFax: huge widths, hostile parameters
 		c.Origin = "ccitt"
 		sub := rapid.IntRange(0, 9).Draw(t, "sub")
+		if sub == 0 && rapid.Bool().Draw(t, "withrows") {
+			sub = 9
+		}
 		switch {
 		case sub == 0: // the bomb: all-white Group 4 rows of maximal width, no /Rows
 			c.Origin = "ccitt-bomb"
@@ -718,6 +752,39 @@ func genCase(t *rapid.T) Case {
 			}
 			setChain([]string{"CCITTFaxDecode"}, []gen.O{oDict(kv)})
 			if rapid.IntRange(0, 3).Draw(t, "direct") == 0 {
+				c.Direct = 0
+			}
+		case sub == 9: // the bomb with an explicit /Rows beyond what the width allows
+			c.Origin = "ccitt-bomb-rows"
+			cols := rapid.SampledFrom([]int64{1 << 20, 1 << 20, 1 << 20, 65536, 4096}).Draw(t, "cols")
+			rowCap := min(int64(65536), (128<<20)/cols) // MaxImageHeight, MaxImagePixels/Columns
+			var rows int64
+			switch rapid.IntRange(0, 5).Draw(t, "rowsel") {
+			case 0:
+				rows = rowCap + 1
+			case 1:
+				rows = rowCap + 200
+			case 2:
+				rows = 2 * rowCap
+			case 3:
+				rows = 65536
+			default:
+				rows = 1 << 20
+			}
+			// every 1 bit is one all-white row: enough rows to pass the cap by 200
+			// (and at least 300 bytes: below 257 the stream budget does not
+			// cover the buffers of a 2^20 pixel row and the decoder refuses)
+			n := max(300, int(min(rows, rowCap+200)/8)+2)
+			if rows > rowCap+200 {
+				n += rapid.IntRange(0, 2000).Draw(t, "extra")
+			}
+			body = bytes.Repeat([]byte{0xff}, n)
+			kv := map[string]gen.O{"K": oInt(-1), "Columns": oInt(cols), "Rows": oInt(rows)}
+			if rapid.IntRange(0, 3).Draw(t, "noeob") == 0 {
+				kv["EndOfBlock"] = oBool(false)
+			}
+			setChain([]string{"CCITTFaxDecode"}, []gen.O{oDict(kv)})
+			if rapid.IntRange(0, 2).Draw(t, "direct") == 0 {
 				c.Direct = 0
 			}
 		case sub <= 3: // wide rows, few of them
@@ -968,7 +1035,7 @@ func genCase(t *rapid.T) Case {
 
 	// ---- how the reader is used ----------------------------------------
 	c.Mode = rapid.SampledFrom([]int{0, 0, 0, 0, 0, 1, 1, 2}).Draw(t, "mode")
-	if c.Origin == "ccitt-bomb" && c.Mode != 0 && rapid.IntRange(0, 3).Draw(t, "drainbomb") != 0 {
+	if strings.HasPrefix(c.Origin, "ccitt-bomb") && c.Mode != 0 && rapid.IntRange(0, 3).Draw(t, "drainbomb") != 0 {
 		c.Mode = 0
 	}
 	if c.Mode == 1 {
@@ -1010,4 +1077,90 @@ func assemble(names, parms []gen.O, asName bool) (gen.O, gen.O) {
 		return f, oNull()
 	}
 	return f, oArr(append([]gen.O{}, parms...)...)
+}
+
+// lzwFullTable is the harness's own LZW encoder (MSB first, 8-bit literals,
+// 9 to 12 bit codes, clear code first).  Unlike the library's writer it does
+// not clear the table when it is full: it keeps coding with the 12-bit table
+// (which the format permits) and emits a clear code only clearAfter codes
+// after the previous one, or never if clearAfter is 0.  The width and
+// table-full rules are written from the decoder's point of view: after each
+// code the decoder assigns the next entry, widens the codes as soon as
+// next+early reaches the width limit and stops assigning at 12 bits.
+func lzwFullTable(data []byte, earlyChange bool, clearAfter int, eod bool) []byte {
+	const clearCode, eodCode = 256, 257
+	ec := 0
+	if earlyChange {
+		ec = 1
+	}
+	var out []byte
+	var acc uint32
+	nacc := uint(0)
+	width := uint(9)
+	put := func(code int) {
+		acc = acc<<width | uint32(code)
+		nacc += width
+		for nacc >= 8 {
+			out = append(out, byte(acc>>(nacc-8)))
+			nacc -= 8
+		}
+	}
+	var dict map[[2]int]int
+	var next, since int
+	full := false
+	reset := func() {
+		put(clearCode)
+		dict = make(map[[2]int]int)
+		width, next, since, full = 9, eodCode, 0, false
+	}
+	// emitted tells the width/table model that the decoder has seen one more
+	// code; it returns the index the decoder will assign next, or -1.
+	emitted := func() int {
+		since++
+		next++
+		if next+ec >= 1<<width {
+			if width >= 12 {
+				next--
+				full = true
+				return -1
+			}
+			width++
+		}
+		if full {
+			return -1
+		}
+		return next
+	}
+	reset()
+	w := -1
+	for _, b := range data {
+		c := int(b)
+		if w < 0 {
+			w = c
+			continue
+		}
+		if code, ok := dict[[2]int{w, c}]; ok {
+			w = code
+			continue
+		}
+		put(w)
+		if idx := emitted(); idx >= 0 {
+			dict[[2]int{w, c}] = idx
+		}
+		w = c
+		if clearAfter > 0 && since >= clearAfter {
+			reset()
+		}
+	}
+	if w >= 0 {
+		put(w)
+		emitted()
+	}
+	if eod {
+		put(eodCode)
+	}
+	if nacc > 0 {
+		out = append(out, byte(acc<<(8-nacc)))
+	}
+	return out
 }
